@@ -345,6 +345,8 @@ nodesLoop:
 			if node.Else != nil {
 				node.Else.Nodes = tc.checkNodesInNewScope(node.Else, node.Else.Nodes)
 			}
+			// A "for" statement with a range clause is not terminating.
+			tc.terminating = false
 
 		case *ast.Assignment:
 			tc.checkGenericAssignmentNode(node)
@@ -668,6 +670,7 @@ nodesLoop:
 			if ti != nil {
 				tc.assignScope(name, ti, node.Ident, nil)
 			}
+			tc.terminating = false
 
 		case *ast.Show:
 
@@ -837,6 +840,7 @@ nodesLoop:
 			} else {
 				tiv.setValue(elemType)
 			}
+			tc.terminating = false
 
 		case *ast.URL:
 			node.Value = tc.checkNodes(node.Value)
@@ -847,6 +851,7 @@ nodesLoop:
 				panic(tc.errorf(node, "%s evaluated but not used", node))
 			}
 			ti.setValue(nil)
+			tc.terminating = false
 
 		case *ast.Goto:
 			tc.scopes.UseLabel("goto", node.Label)
@@ -856,12 +861,16 @@ nodesLoop:
 			tc.scopes.DeclareLabel(node)
 			if node.Statement != nil {
 				_ = tc.checkNodes([]ast.Node{node.Statement})
+			} else {
+				tc.terminating = false
 			}
 
 		case *ast.Comment, *ast.Raw:
 
 		case *ast.Call:
 			tis := tc.checkCallExpression(node)
+			// Only a call to the builtin "panic" is a terminating statement.
+			tc.terminating = false
 			ti := tc.compilation.typeInfos[node.Func]
 			if ti.IsBuiltinFunction() {
 				switch node.Func.(*ast.Identifier).Name {
